@@ -334,6 +334,16 @@ def run(ctx):
                                        ("enum", "run the tests", "install", "run the tests", "run the tests"), ("ser",)]
         ops += [("up",), ("text", "single line")] * (d - 1)
         deep.append(ops)
+    # paragraph lines that hold characters which str.splitlines() (but not a "\n" split) treats as line breaks, and
+    # carriage returns: one "\n"-delimited line of a paragraph is one line of the output, at every depth 0..4
+    odd_texts = ["page one\x0c page two", "a\x0b b\x1c c\x1d d\x1e e", "nel\x85 ls\u2028 ps\u2029 end",
+                 "first\x0c half\n  second\u2028 half\n\nthird\x85", "cr\r in the middle", "\x0c", "  \x0c lead"]
+    for d in range(0, 5):
+        for t in odd_texts:
+            deep.append([("dir", "note")] * d + [("text", t), ("field", "fname", "fval"), ("ser",)])
+            if d:
+                deep.append([("dir", "note")] * d + [("opt", "maxdepth", "2"), ("text", "single line"), ("text", t)])
+    ctx.cov["bounds"]["odd_paragraph_texts"] = odd_texts
     for ops in deep:
         v, rd, od, nt = check(ops, titles[0], None)
         ctx.cov["evaluations"] += 1
